@@ -51,10 +51,14 @@ class SeqDomain(Domain):
             ('range(2,11,3)', 'range(2, 11, 3)', Fin((2, 5, 8))),
             ('range(5,-4,-2)', 'range(5, -4, -2)', Fin((5, 3, 1, -1, -3))),
             ('count()', 'count()', Inf(range(INFP))),
+            ('range-bigstep', 'range(0, 10, %s)' % xint(B - 1), Fin((0,))),
+            ('range-bigstep-neg', 'range(5, 0, %s)' % xint(-(B - 1)), Fin((5,))),
         ]
         if self.tier != 'quick':
             out += [
                 ('range-hi', 'range(%s, %s)' % (xint(B - 3), xint(B - 1)), Fin((B - 3, B - 2))),
+                ('range-span', 'range(%s, %s, %s)' % (xint(-B), xint(B - 1), xint(B - 1)), Fin((-B, -1, B - 2))),
+                ('range-span-neg', 'range(%s, %s, %s)' % (xint(B - 1), xint(-B), xint(-(B - 1))), Fin((B - 1, 0, -(B - 1)))),
                 ('range-lo', 'range(%s, %s)' % (xint(-B), xint(-B + 2)), Fin((-B, -B + 1))),
                 ('count(3,2)', 'count(3, 2)', Inf(3 + 2 * i for i in range(INFP))),
                 ('[1,2].repeat()', '[1, 2].repeat()', Inf((1, 2)[i % 2] for i in range(INFP))),
